@@ -70,7 +70,8 @@ void prop(DP &dp, const ref::Bytes &sched, Ctx &ctx) {
 	check_connectivity(ctx, c, model, "after startup");
 	bool lost_ev = false, new_ev = false;
 	unsigned nev = (unsigned) dp.range(0, 14);
-	uint8_t version = 2;
+	// table versions count per interface: notices of different interfaces may well carry the same number
+	std::map<ref::Bytes, uint8_t> versions;
 	for (unsigned e = 0; e < nev && dp.more(); e++) {
 		unsigned kind = dp.weighted({5, 5, 3});
 		size_t mark = n.bus.tx.size();
@@ -81,6 +82,8 @@ void prop(DP &dp, const ref::Bytes &sched, Ctx &ctx) {
 			if (cand.empty()) continue;
 			size_t k = cand[dp.pick((unsigned) cand.size())];
 			ref::Bytes parent(model[k].addr.begin(), model[k].addr.end() - 1);
+			uint8_t &vref = versions.emplace(parent, 2).first->second;
+			const uint8_t version = vref;
 			ref::Bytes d = {version, model[k].addr.back()};
 			d.insert(d.end(), model[k].uid.begin(), model[k].uid.end());
 			ctx.desc << "  NODE_LOST " << hex(model[k].addr) << " " << (model[k].board.empty() ? "unknown" : model[k].board) << " (notice from " << (parent.empty() ? "0" : hex(parent)) << ")\n";
@@ -99,7 +102,7 @@ void prop(DP &dp, const ref::Bytes &sched, Ctx &ctx) {
 					if (r.m.addr != parent || r.m.data != ref::Bytes{version}) ctx.fail("ACK: node-lost notice from " + hex(parent) + " version " + std::to_string(version) + " acknowledged with " + ref::show(r.m));
 				}
 			if (acks != 1) ctx.fail("ACK: node-lost notice was acknowledged " + std::to_string(acks) + " times (without any flush call)");
-			version++;
+			vref++;
 			lost_ev = true;
 			check_connectivity(ctx, c, model, "after NODE_LOST");
 		} else if (kind == 1) {
@@ -155,6 +158,8 @@ void prop(DP &dp, const ref::Bytes &sched, Ctx &ctx) {
 			nn.addr.push_back(local);
 			// a stale (dead) model entry of the same board is replaced
 			for (auto &m : model) if (!m.alive && !nn.board.empty() && m.board == nn.board) m.board.clear();
+			uint8_t &vref = versions.emplace(model[p].addr, 2).first->second;
+			const uint8_t version = vref;
 			ref::Bytes d = {version, local};
 			d.insert(d.end(), nn.uid.begin(), nn.uid.end());
 			ctx.desc << "  NODE_NEW " << hex(nn.addr) << " " << (nn.board.empty() ? "unknown" : nn.board) << " (notice from " << (model[p].addr.empty() ? "0" : hex(model[p].addr)) << ")\n";
@@ -171,7 +176,7 @@ void prop(DP &dp, const ref::Bytes &sched, Ctx &ctx) {
 					if (r.m.addr != parent || r.m.data != ref::Bytes{version}) ctx.fail("ACK: node-new notice from " + hex(parent) + " version " + std::to_string(version) + " acknowledged with " + ref::show(r.m));
 				}
 			if (acks != 1) ctx.fail("ACK: node-new notice was acknowledged " + std::to_string(acks) + " times (without any flush call)");
-			version++;
+			vref++;
 			new_ev = true;
 			check_connectivity(ctx, c, model, "after NODE_NEW");
 		} else {
